@@ -213,6 +213,9 @@ func c20Share(x *explore.Ctx, nconn int, deflate bool) {
 		})
 	}
 	s.Run()
+	for _, t := range s.Trace {
+		x.Logf("schedule: %s", t)
+	}
 	x.NonTrivial()
 	key := func(what string) string { return fmt.Sprintf("C20:share-%s:deflate=%v", what, deflate) }
 	x.Obs("events=%d switches=%d", len(pool.Events), s.Switches)
